@@ -42,7 +42,7 @@ def run(ctx):
     mf = mir.MirFile(mir_path("dis"))
     ctx.trusted += ["rustc MIR of dis/main.rs", "mirsym", "summaries: clap builder = opaque, File::open / read_to_end = Ok (readable file), load_bytes = arbitrary Result",
                     "C04 for the panic-freedom of load_bytes and disassemble"]
-    ctx.bounds.append("main: all paths; corpus run: %s files" % ("~330" if ctx.tier == "quick" else "~10000"))
+    ctx.bounds.append("main: all paths; corpus run: %s files" % ("~1700" if ctx.tier == "quick" else "~10000"))
     fn = mf.get("main", kind="fn")
 
     def opaque(name):
@@ -155,7 +155,7 @@ def corpus(tier):
     alpha = [le(5 << 16 | 54) + le(1) + le(5) + le(0) + le(4), le(2 << 16 | 248) + le(6), le(1 << 16 | 253), le(1 << 16 | 56),
              le(3 << 16 | 55) + le(1) + le(7), le(1 << 16 | 0)]
     pre = c03.HEADER + le(2 << 16 | 19) + le(1) + le(3 << 16 | 33) + le(4) + le(1)
-    for n in range(1, 4 if tier == "quick" else 6):
+    for n in range(1, 5 if tier == "quick" else 6):
         for seq in itertools.product(range(len(alpha)), repeat=n):
             files.append(bytes.fromhex(pre + "".join(alpha[i] for i in seq)))
     # byte-swapped magic and a fully byte-swapped module
